@@ -1,7 +1,8 @@
 """C16 — loads-analysis extrema, envelopes and uncertainty factors (DESIGN.md section 6/C16).
 
 Tie: correspondence between the Lean models (lean/PyYetiVerif/Model/Extrema.lean, ExtremaPsd.lean, ExtremaMerge.lean,
-ApplyUf.lean, ApplyUfFull.lean, run through Drivers/C16.lean) and the real code imported from the working tree:
+ExtremaTree.lean, ExtremaHeap.lean, ExtremaLabels.lean, ExtremaSplit.lean, ApplyUf.lean, ApplyUfFull.lean, ApplyUfDef.lean,
+run through Drivers/C16.lean) and the real code imported from the working tree:
 
   maxmin        cla.maxmin on random matrices (ties, NaN, all-NaN rows, bad x length)      exact
   ext2 / ext1   cla.extrema call histories, two- and one-column, every prefix compared,
@@ -48,6 +49,18 @@ ApplyUf.lean, ApplyUfFull.lean, run through Drivers/C16.lean) and the real code 
                 modes and non-unit factors: the unit-force responses come from the Rat model of
                 apply_uf                                                             numeric + exact
 
+  labform       DR_Results.form_extreme over events whose categories list DIFFERENT ROWS: recovery events
+                (time_data_recovery, 1-3 load cases, so .mx / .mn exist), add_maxmin events and groups (lower-level
+                envelopes), 2-4 members, label lists identical / permuted / subset / superset / disjoint / partly
+                overlapping / with a repeated label (same list: accepted, other list: ValueError), abscissae given by all /
+                none / some members, a second category carried by some events only, case_order, doappend 0-3; every
+                `_calc_extreme` level against Model/ExtremaLabels.lean on whole tables: row labels and their order,
+                ext, ext_x (or its absence), maxcase, mincase, mx, mn, mx_x, mn_x, the exception kind                exact
+  mergelists    locate.merge_lists on random lists (with and without repeated items)                         exact
+  split         DR_Results.split on recovery events (case numbers in any order; a column never filled: TypeError)
+                against Model/ExtremaSplit.lean on the implementation's own per-case columns                  exact
+  ufdef         DR_Def.add(uf_reds=...) with / without defaults['uf_reds'], None entries anywhere                exact
+
 Exactness: everything the extrema code does to a value is compare / negate / move, so every double
 is sent to the Int model as its order-preserving, odd-symmetric integer key (IEEE bit pattern with
 the sign folded); no rounding is involved.  Diagonal apply_uf runs at Rat in the model and is compared with
@@ -60,7 +73,12 @@ envelope of parts, idempotence of form_extreme, calc_ext agreement, the PSD sum 
 trapezoid rms / linearity / force-order independence, merge refusals, the documented apply_uf formulas
 (also for full matrices, via numpy.linalg.solve) and cache transparency, nested structures (parts
 bit-identical, every group's envelope, no stale 'extreme', idempotence, delete-then-form, traversal order), the
-documented vibration response spectrum of the response PSD and its envelope, mean + k sigma with ddof = 1.
+documented vibration response spectrum of the response PSD and its envelope, mean + k sigma with ddof = 1;
+form_extreme BY ROW LABEL (for every label the envelope over exactly the members that list it, governing label and
+abscissa of an attaining member, per-case columns NaN where a member lacks the row, row order = the documented merge,
+values independent of the event order, parts untouched, ValueError exactly for a repeated label against another
+list), merge_lists' documented equations, split() giving every case its own columns under its own label, and the
+documented reset of None entries of uf_reds.
 """
 import copy
 import itertools
@@ -127,13 +145,20 @@ RULE = (
     "either order / boolean mask), 1-4 factor tuples, vector and full (symmetric or not, C / Fortran ordered) matrices; "
     "nested results of depth 1-3 with 1-3 members per group and stale 'extreme' entries; extrema histories with all inputs "
     "created beforehand; PSD events with SRS (1-3 oscillator frequencies on the grid, Q 10 / 25, eqsine, resp_time) and "
-    "with solvepsd(use_apply_uf=True) (modal vectors, 0-2 rb, 0-2 rf modes, factors from {0.5, 1, 1.25, 1.5, 2}). One case = one history / event / structure compared on all rows "
+    "with solvepsd(use_apply_uf=True) (modal vectors, 0-2 rb, 0-2 rf modes, factors from {0.5, 1, 1.25, 1.5, 2}); "
+    "form_extreme over 2-4 members (recovery events with 1-3 load cases, add_maxmin events, groups) whose categories list "
+    "1-6 row labels drawn from a pool of 8 in the patterns identical / permuted / subset / disjoint / overlap / random / "
+    "repeated label (36 fixed pattern x shape combinations first, then random ones); merge_lists on lists of 0-5 items; "
+    "split() on recovery events; DR_Def.add with defaults / uf_reds entries from {0, 0.5, 1, 1.25, 1.5, 2, None}. One case = one history / event / structure compared on all rows "
     "and all prefixes; non-trivial = at least two calls and at least one replacement after the first call (extrema), "
     "at least one non-rigid mode (apply_uf), an accepted event (recovery streams); distinct by the canonical input."
 )
 ASSUMPTIONS = [
     "within one extrema history mm.ext_x is either always given or never (DR_Results always gives it)",
-    "form_extreme parts share the same row labels (the label-merging expansion path is not exercised)",
+    "form_extreme over events that list different rows: the events carry no SRS (srs.ext is enveloped by position, "
+    "the label merge does not touch it); the by-label theorems ask that all events of a category have abscissae or none "
+    "has (the mixed case is modelled as the code has it and reported as a finding) and that every event but the first "
+    "has per-case columns (an add_maxmin event that lists other rows raises KeyError: also reported)",
     "apply_uf: stiffness of every non-rigid-body mode is non-zero / k[ee] and k[rf, rf] are invertible; all calls sharing a "
     "save dict use the same sol, m, b, k, nrb, rfmodes; rfmodes index modes at or above nrb",
     "PSD recovery: every case has at least one non-zero force PSD (with all forces zero and allow_force_trimming the code "
@@ -155,8 +180,14 @@ PARTIAL = (
     "init_extreme_cat's copies (srs.ext deepcopy, new NaN arrays) are listed in the model header and "
     "covered by the oracle rule only; calc_stat_ext is proved per row over a field with an abstract square root; the SRS of "
     "the response PSD uses C03's vrs model with the oscillator frequencies on the analysis grid (no interpolation); "
-    "solvepsd(use_apply_uf=True) is driven with vector modal data only; DR_Results.split / strip_hists / set_dr_order / "
-    "rptext-style reports are text and are not modelled"
+    "solvepsd(use_apply_uf=True) is driven with vector modal data only; strip_hists / set_dr_order / "
+    "rptext-style reports are text and are not modelled; form_extreme by row label is proved for events that all have "
+    "abscissae or all have none (form_extreme_by_label), the mixed case is in the model (tied by the labform stream) but "
+    "no by-label statement holds for its abscissae (abscissa_none_first_counterexample); the SRS envelope of events "
+    "that list different rows is outside the model; uf_reds_none_entries_documented_partial: the documented reset of "
+    "None entries of uf_reds to defaults is proved only where code and docstring coincide (no None entry, or no "
+    "defaults), uf_reds_none_entries_counterexample shows the difference; split() is modelled for ext / ext_x / cases "
+    "(hist / psd / srs slabs are covered by the oracle rule only)"
 )
 MANIFEST = {
     "level_text": "proof",
@@ -169,8 +200,15 @@ MANIFEST = {
                   "nested results (delete_extreme, form_extreme idempotent and restoring after delete_extreme, parts kept, the "
                   "nested envelope = extrema applied recursively, traversal order of all_categories / all_base_events) and a "
                   "store model of cla.extrema with the frame theorem that forming an envelope never writes into its parts and "
-                  "the refinement theorem that it computes the value model's running extreme; tie by exact / numeric correspondence on the real "
-                  "code; measured only: that scipy's LU inverts the partitions, the vrs kernel (C03's model at 1e-9)",
+                  "the refinement theorem that it computes the value model's running extreme; form_extreme over events that list "
+                  "different rows (merge_lists' documented equations; for every row label the envelope over exactly the events "
+                  "that list it with label and abscissa of the first attaining event, per-case columns NaN where an event lacks "
+                  "the row, row order = iterated merge, values independent of the event order, missing rows never win, repeated "
+                  "labels refused); the case-label list names the per-case columns whatever the order of the calls and split() "
+                  "pairs each label with its own column; tie by exact / numeric correspondence on the real "
+                  "code; measured only: that scipy's LU inverts the partitions, the vrs kernel (C03's model at 1e-9); three "
+                  "findings are reported by the oracle (abscissa copied from another event when the first has none, KeyError for "
+                  "add_maxmin events that list other rows, None entries of uf_reds reset to 1 instead of the defaults)",
     "technique": "Lean 4 proof + differential correspondence + model-free oracle",
 }
 
@@ -2118,7 +2156,10 @@ def labform_run(spec):
             if len(parts) < len(cases):
                 branches.add("labels-category-missing-in-some-event")
             if formed:
-                want.append(("acc", _lab_acc_reply(dct["extreme"][drm])))
+                try:
+                    want.append(("acc", _lab_acc_reply(dct["extreme"][drm])))
+                except (IndexError, ValueError, TypeError, AttributeError, KeyError) as e:
+                    want.append(("acc", "malformed-table:%s:%s" % (type(e).__name__, str(e)[:120])))
             else:
                 want.append(("err", exc, drm, dct, cases))
         if formed and list(dct["extreme"].keys()) != cats:
@@ -3736,7 +3777,7 @@ def oracle_labform(spec):
                       "the envelope by label"))
         return fails
     if exc is not None or must_raise:
-        fails.append(("form-extreme-repeated-row-labels-" + ("accepted" if exc is None else "refusal-spurious"),
+        fails.append(("form-extreme-repeated-row-labels-accepted" if exc is None else "form-extreme-differing-rows-raises-" + exc,
                       "differing label lists with a repeated label must be refused with ValueError, all others accepted",
                       spec, exc, "ValueError" if must_raise else None))
         return fails
@@ -3751,6 +3792,18 @@ def oracle_labform(spec):
                                   % (bad or "drminfo.labels", "/".join(path + (drm,))), spec, None, None))
                     return fails
     # 4. every level: by label, the envelope of the members that carry the label
+    try:
+        fails += _lab_levels_check(spec, levels, d)
+    except (IndexError, ValueError, TypeError, AttributeError, KeyError) as e:
+        fails.append(("form-extreme-by-label-malformed-table", "the tables of an envelope do not fit its row labels / cases (%s: %s)"
+                      % (type(e).__name__, str(e)[:150]), spec, type(e).__name__, "tables with one row per label"))
+    if fails:
+        return fails
+    return fails + _lab_order_check(spec, top)
+
+
+def _lab_levels_check(spec, levels, d):
+    fails = []
     for path, dct, cases in levels:
         where = "/".join(path) or "Top"
         ext_all = dct["extreme"]
@@ -3837,7 +3890,12 @@ def oracle_labform(spec):
                         fails.append(("form-extreme-by-label-per-case-column", "%s/%s row %r column %d (%s): mx, mn, mx_x, mn_x"
                                       % (where, drm, lbl, j, case), spec, got4, want4))
                         return fails
-    # 5. values by label do not depend on the order of the events
+    return fails
+
+
+def _lab_order_check(spec, top):
+    """values by label do not depend on the order of the events"""
+    fails = []
     if spec["case_order"] is None and len(spec["members"]) > 1:
         top2, exc2 = build_labform(spec, order=list(range(len(spec["members"])))[::-1])
         if exc2 == "KeyError":
